@@ -995,7 +995,7 @@ class Session:
                 c.cacheMinimize()     # leave only ghosts behind: pooled connections get paired anew
                 c.close()
 
-    def load_phase(self, keys, variant, missing=False, reimport=False):
+    def load_phase(self, keys, variant, missing=False, reimport=False, factory=False):
         ktxt = ','.join('%d:%s' % (d, o.hex()) for d, o in keys)
         lenv = 'lenv %s %s' % (','.join(map(str, range(self.ndb))),
                                ','.join(map(str, GONE_IDS)) if missing else '-')
@@ -1022,13 +1022,15 @@ class Session:
                     self.ltm.abort()
                     c2.close()
         else:
-            dbs = self.fresh_dbs()
+            dbs = self.fresh_dbs(class_factory=gone_factory if factory else None)
             try:
-                if missing:
+                if missing or factory:
                     c14_classes.hide_gone()
                 elif reimport:
                     c14_classes.importable_gone()     # back on the path, not (yet) in sys.modules
-                if self.ndb > 1:
+                if factory:
+                    pass        # the walk must go through the first connection the new DB hands out
+                elif self.ndb > 1:
                     # own DB objects: a connection of d1 opened as primary keeps its d0 partner for ever
                     # (Connection.connections), and would bring it along when it is later handed out as
                     # the secondary of another d0 connection
@@ -1041,7 +1043,7 @@ class Session:
                 else:
                     self.weak_deref(dbs, keys)
                 c = dbs[0].open(transaction_manager=transaction.TransactionManager())
-                res = [self.real_walk(c, keys) + (None if missing or reimport else self.args_seen,)]
+                res = [self.real_walk(c, keys) + (None if missing or reimport or factory else self.args_seen,)]
                 c.transaction_manager.abort()
                 c.close()
             finally:
@@ -1053,7 +1055,7 @@ class Session:
             self.emit('lwalk ' + ktxt, canon_walk('dup=%d | %s' % (dup, ' | '.join(out))))
             Oracle(self).loaded(dup, out, variant, missing, args_seen)
 
-    def fresh_dbs(self, patched=None):
+    def fresh_dbs(self, patched=None, class_factory=None):
         """new DBs on copies of the storages; `patched` replaces the current record of some oids"""
         databases = {}
         dbs = []
@@ -1063,7 +1065,7 @@ class Session:
                 self.ncopy = getattr(self, 'ncopy', 0) + 1
                 path = os.path.join(self.dir, '%s-copy%d.fs' % (DBNAMES[i], self.ncopy))
                 shutil.copyfile(st.getName(), path)          # the same storage, opened afresh
-                dbs.append(ZODB.DB(FileStorage(path, read_only=True), databases=databases,
+                dbs.append(ZODB.DB(FileStorage(path, read_only=True), databases=databases, class_factory=class_factory,
                                    database_name=DBNAMES[i]))
                 continue
             new = MappingStorage(DBNAMES[i])
@@ -1080,7 +1082,7 @@ class Session:
                     last[r.oid] = t.tid
                 new.tpc_vote(meta)
                 new.tpc_finish(meta)
-            dbs.append(ZODB.DB(new, databases=databases, database_name=DBNAMES[i]))
+            dbs.append(ZODB.DB(new, databases=databases, database_name=DBNAMES[i], class_factory=class_factory))
         return dbs
 
     def export_check(self):
@@ -1309,6 +1311,9 @@ class Session:
             # ... and once the classes can be imported again (nobody has imported them yet), a new
             # connection loads the real classes with the stored state
             self.load_phase(keys, 'fresh-reimport', reimport=True)
+            # ... and a DB configured with a class factory that still knows the classes (DB(class_factory=...))
+            # loads the real classes through every connection, the first one it hands out included
+            self.load_phase(keys, 'fresh-factory', factory=True)
             c14_classes.hide_gone()
             try:
                 for k, data in sorted(allrecs.items()):
@@ -1354,19 +1359,74 @@ class Session:
                             self.formats.add('u')
                         if t[0] == 'L':
                             self.formats.add('L')
-                dbs = self.fresh_dbs(patched)
-                try:
-                    c = dbs[0].open(transaction_manager=transaction.TransactionManager())
-                    dup, out = self.real_walk(c, keys)
-                    c.transaction_manager.abort()
-                    c.close()
-                finally:
-                    for db in dbs:
-                        db.close()
+                def legacy_walk():
+                    n0 = len(self.viol)
+                    dbs = self.fresh_dbs(patched)
+                    try:
+                        c = dbs[0].open(transaction_manager=transaction.TransactionManager())
+                        dup, out = self.real_walk(c, keys)
+                        c.transaction_manager.abort()
+                        c.close()
+                    finally:
+                        for db in dbs:
+                            db.close()
+                    del c, dbs
+                    return dup, out, self.viol[n0:]
+                # in a child process: an object cache that got two objects for one oid can take the
+                # interpreter down
+                kind, res = in_child(legacy_walk)
+                if kind != 'ok':
+                    self.violation('C14:ascii-oid', 'loading the graph from records written the Python 2 way (all-ASCII '
+                                   'oids arrive as str) %s' % ('killed the interpreter with signal %d' % res
+                                                               if kind == 'signal' else 'raised %s' % res))
+                    return
+                dup, out, viol = res
+                self.viol += viol
                 self.emit('lenv %s -' % ','.join(map(str, range(self.ndb))), 'ok')
                 self.emit('lwalk ' + ','.join('%d:%s' % (d, o.hex()) for d, o in keys),
                           canon_walk('dup=%d | %s' % (dup, ' | '.join(out))))
                 Oracle(self).loaded(dup, out, 'legacy', False)
+
+
+def gone_factory(conn, modulename, globalname):
+    """a DB class factory that knows the classes of c14_gone although the module cannot be imported"""
+    if modulename == 'c14_gone':
+        return getattr(c14_classes._gone, globalname)
+    return ZODB.broken.find_global(modulename, globalname)
+
+
+def in_child(fn):
+    """run fn() in a forked child; ('ok', result) | ('exc', repr) | ('signal', n) if the child died"""
+    import gc
+    import pickle
+    sys.stdout.flush()
+    r, w = os.pipe()
+    pid = os.fork()
+    if pid == 0:
+        code = 0
+        try:
+            os.close(r)
+            try:
+                res = ('ok', fn())
+                gc.collect()          # a corrupted object cache shows when the garbage is collected
+            except BaseException as e:
+                res = ('exc', repr(e))
+            with os.fdopen(w, 'wb') as f:
+                f.write(pickle.dumps(res))
+        except BaseException:
+            code = 3
+        finally:
+            os._exit(code)
+    os.close(w)
+    with os.fdopen(r, 'rb') as f:
+        data = f.read()
+    _, status = os.waitpid(pid, 0)
+    if os.WIFSIGNALED(status):
+        return ('signal', os.WTERMSIG(status))
+    try:
+        return pickle.loads(data)
+    except Exception:
+        return ('exc', 'child exited with status %d without a result' % status)
 
 
 def decode_getrefs(data):
